@@ -240,6 +240,10 @@ func registerJSON(reg func(string, intercept), nop intercept) {
 		if v.T != nil {
 			blob.Snap = e.deepSnap(v.V, 0)
 		}
+		if e.blobs == nil {
+			e.blobs = map[int]*Blob{}
+		}
+		e.blobs[blob.ID] = blob
 		txt := fmt.Sprintf("{\"#blob\":%d}", blob.ID)
 		s := e.mkConcByteSlice([]byte(txt))
 		s.B.Tag = blob
@@ -251,6 +255,16 @@ func registerJSON(reg func(string, intercept), nop intercept) {
 		var blob *Blob
 		if data.B != nil && data.Off == 0 && data.Len == len(data.B.E) {
 			blob = data.B.Tag
+		}
+		if blob == nil && data.B != nil {
+			// the placeholder text survives byte-wise copying: recover the blob by id
+			txt := e.normStr(e.sliceTerms(data), nil)
+			if txt.IsConc() {
+				var id int
+				if _, err := fmt.Sscanf(txt.S, "{\"#blob\":%d}", &id); err == nil {
+					blob = e.blobs[id]
+				}
+			}
 		}
 		if blob == nil {
 			if h := e.jsonHavoc; h != nil {
@@ -499,5 +513,242 @@ func init() {
 			return Slice{}
 		}
 		return e.mkConcByteSlice(ip)
+	}
+}
+
+// ---- compress/gzip as an invertible pair ---------------------------------------------------
+//
+// Writer: buffers everything; Close emits one member  1f 8b | len32 | data  to the
+// underlying writer. Reader: parses that member and yields data. DEFLATE itself is
+// outside the claim; ordering/framing bugs around the codec are still visible.
+// Hostile mode (Bounds["gzip_hostile"]=1): a member with valid magic inflates to
+// len32 ARBITRARY bytes regardless of how few input bytes follow (unbounded ratio).
+
+type gzW struct {
+	dst    Iface
+	buf    []*Term
+	closed bool
+}
+
+type gzR struct {
+	src       Iface
+	remaining *Term // BV64 (hostile: symbolic), else concrete
+	err       Value
+	hostile   bool
+	started   bool
+}
+
+func (e *Engine) gzKey(p Ptr) *Backing { return p.B.E[p.I].(*Backing) }
+
+func (e *Engine) pkgVarIface(pkg, name string) Value {
+	p := e.prog.ImportedPackage(pkg)
+	if p == nil {
+		panic(e.unsupported("package " + pkg + " not loaded"))
+	}
+	g := p.Var(name)
+	if g == nil {
+		panic(e.unsupported("var " + pkg + "." + name))
+	}
+	return e.load(e.globalPtr(g))
+}
+
+func (e *Engine) readFromIface(fr *frame, src Iface, n int) ([]*Term, Value) {
+	// reads exactly up to n bytes (looping like io.ReadFull); returns bytes read and error
+	var out []*Term
+	for len(out) < n {
+		tmp := e.mkByteSlice(make([]*Term, 0))
+		b := &Backing{E: make([]Value, n-len(out))}
+		for i := range b.E {
+			b.E[i] = e.tb.Const(8, 0)
+		}
+		tmp = Slice{B: b, Len: len(b.E), Cap: len(b.E)}
+		r, ok := e.callMethod(fr, src, "Read", tmp)
+		if !ok {
+			panic(e.unsupported("gzip source has no Read"))
+		}
+		tp := r.(Tuple)
+		got := int(e.concInt(tp[0].(*Term), "read count"))
+		for i := 0; i < got; i++ {
+			out = append(out, b.E[i].(*Term))
+		}
+		if er := tp[1].(Iface); er.T != nil {
+			return out, er
+		}
+		if got == 0 {
+			e.gzSpin++
+			if e.gzSpin > 4 {
+				panic(e.unsupported("gzip source returns (0,nil) repeatedly"))
+			}
+		}
+	}
+	return out, Iface{}
+}
+
+func init() {
+	writers := func(e *Engine) map[*Backing]*gzW {
+		if e.gzWriters == nil {
+			e.gzWriters = map[*Backing]*gzW{}
+		}
+		return e.gzWriters
+	}
+	readers := func(e *Engine) map[*Backing]*gzR {
+		if e.gzReaders == nil {
+			e.gzReaders = map[*Backing]*gzR{}
+		}
+		return e.gzReaders
+	}
+	newW := func(e *Engine, fr *frame, a []Value) Value {
+		rt := mustDeref(fr.fn.Signature.Results().At(0).Type())
+		sb := e.zero(rt).(*Backing)
+		writers(e)[sb] = &gzW{dst: a[0].(Iface)}
+		p := Ptr{B: &Backing{E: []Value{sb}}}
+		if fr.fn.Signature.Results().Len() == 2 {
+			return Tuple{p, Iface{}}
+		}
+		return p
+	}
+	intercepts["compress/gzip.NewWriter"] = newW
+	intercepts["compress/gzip.NewWriterLevel"] = newW
+	getW := func(e *Engine, p Ptr) *gzW {
+		w := writers(e)[e.gzKey(p)]
+		if w == nil {
+			w = &gzW{}
+			writers(e)[e.gzKey(p)] = w
+		}
+		return w
+	}
+	intercepts["(*compress/gzip.Writer).Reset"] = func(e *Engine, fr *frame, a []Value) Value {
+		w := getW(e, a[0].(Ptr))
+		w.dst = a[1].(Iface)
+		w.buf = nil
+		w.closed = false
+		return nil
+	}
+	intercepts["(*compress/gzip.Writer).Write"] = func(e *Engine, fr *frame, a []Value) Value {
+		w := getW(e, a[0].(Ptr))
+		if w.closed {
+			return Tuple{e.mkInt(0), e.mkError("gzip: write to closed writer")}
+		}
+		s := a[1].(Slice)
+		w.buf = append(w.buf, e.sliceTerms(s)...)
+		return Tuple{e.mkInt(int64(s.Len)), Iface{}}
+	}
+	intercepts["(*compress/gzip.Writer).Flush"] = func(e *Engine, fr *frame, a []Value) Value { return Iface{} }
+	intercepts["(*compress/gzip.Writer).Close"] = func(e *Engine, fr *frame, a []Value) Value {
+		w := getW(e, a[0].(Ptr))
+		if w.closed {
+			return Iface{}
+		}
+		w.closed = true
+		n := len(w.buf)
+		out := []*Term{e.tb.Const(8, 0x1f), e.tb.Const(8, 0x8b), e.tb.Const(8, uint64(n>>24)), e.tb.Const(8, uint64(n>>16)&0xff), e.tb.Const(8, uint64(n>>8)&0xff), e.tb.Const(8, uint64(n)&0xff)}
+		out = append(out, w.buf...)
+		if w.dst.T == nil {
+			return Iface{}
+		}
+		r, ok := e.callMethod(fr, w.dst, "Write", e.mkByteSlice(out))
+		if !ok {
+			panic(e.unsupported("gzip destination has no Write"))
+		}
+		return r.(Tuple)[1]
+	}
+	startR := func(e *Engine, fr *frame, r *gzR) Value {
+		r.started = true
+		r.hostile = e.cfg.Bounds["gzip_hostile"] != 0
+		hdr, er := e.readFromIface(fr, r.src, 6)
+		if len(hdr) < 6 {
+			if len(hdr) == 0 {
+				if ei, ok := er.(Iface); ok && ei.T != nil {
+					return er
+				}
+				return e.pkgVarIface("io", "EOF")
+			}
+			return e.pkgVarIface("io", "ErrUnexpectedEOF")
+		}
+		okMagic := e.tb.And(e.tb.Eq(hdr[0], e.tb.Const(8, 0x1f)), e.tb.Eq(hdr[1], e.tb.Const(8, 0x8b)))
+		if !e.Branch(okMagic) {
+			return e.pkgVarIface("compress/gzip", "ErrHeader")
+		}
+		ln := e.tb.Const(64, 0)
+		for i := 2; i < 6; i++ {
+			ln = e.tb.Bin(OpBOr, e.tb.Bin(OpShl, ln, e.tb.Const(64, 8)), e.tb.ZExt(hdr[i], 64))
+		}
+		r.remaining = ln
+		return Iface{}
+	}
+	intercepts["compress/gzip.NewReader"] = func(e *Engine, fr *frame, a []Value) Value {
+		rt := mustDeref(fr.fn.Signature.Results().At(0).Type())
+		sb := e.zero(rt).(*Backing)
+		r := &gzR{src: a[0].(Iface)}
+		readers(e)[sb] = r
+		er := startR(e, fr, r)
+		if ei := er.(Iface); ei.T != nil {
+			return Tuple{Ptr{}, er}
+		}
+		return Tuple{Ptr{B: &Backing{E: []Value{sb}}}, Iface{}}
+	}
+	intercepts["(*compress/gzip.Reader).Reset"] = func(e *Engine, fr *frame, a []Value) Value {
+		r := &gzR{src: a[1].(Iface)}
+		readers(e)[e.gzKey(a[0].(Ptr))] = r
+		return startR(e, fr, r)
+	}
+	intercepts["(*compress/gzip.Reader).Close"] = func(e *Engine, fr *frame, a []Value) Value { return Iface{} }
+	intercepts["(*compress/gzip.Reader).Multistream"] = func(e *Engine, fr *frame, a []Value) Value { return nil }
+	intercepts["(*compress/gzip.Reader).Read"] = func(e *Engine, fr *frame, a []Value) Value {
+		r := readers(e)[e.gzKey(a[0].(Ptr))]
+		if r == nil {
+			panic(e.unsupported("gzip.Reader not created through NewReader"))
+		}
+		p := a[1].(Slice)
+		if p.Len == 0 {
+			return Tuple{e.mkInt(0), Iface{}}
+		}
+		zero := e.tb.Eq(r.remaining, e.tb.Const(64, 0))
+		if e.Branch(zero) {
+			return Tuple{e.mkInt(0), e.pkgVarIface("io", "EOF")}
+		}
+		if r.hostile {
+			// yields min(len(p), remaining) arbitrary bytes without needing input
+			full := e.tb.Cmp(OpUle, e.tb.Const(64, uint64(p.Len)), r.remaining)
+			n := p.Len
+			if !e.Branch(full) {
+				n = int(e.Concretize(r.remaining, "inflate tail"))
+			}
+			e.havocFill(p, n)
+			r.remaining = e.tb.Bin(OpSub, r.remaining, e.tb.Const(64, uint64(n)))
+			return Tuple{e.mkInt(int64(n)), Iface{}}
+		}
+		rem := int(e.Concretize(r.remaining, "gzip member length"))
+		n := p.Len
+		if rem < n {
+			n = rem
+		}
+		got, er := e.readFromIface(fr, r.src, n)
+		for i, t := range got {
+			p.B.E[p.Off+i] = t
+		}
+		r.remaining = e.tb.Const(64, uint64(rem-len(got)))
+		if len(got) < n {
+			_ = er
+			return Tuple{e.mkInt(int64(len(got))), e.pkgVarIface("io", "ErrUnexpectedEOF")}
+		}
+		return Tuple{e.mkInt(int64(n)), Iface{}}
+	}
+}
+
+// havocFill overwrites the first n elements of p with arbitrary bytes. Large
+// fills share one fresh variable per 4 KiB page beyond the first 64 bytes (contents
+// of bomb output are irrelevant to the obligations checked).
+func (e *Engine) havocFill(p Slice, n int) {
+	var page *Term
+	for i := 0; i < n; i++ {
+		if i < 64 {
+			p.B.E[p.Off+i] = e.freshInternal("inflate", BV(8))
+			continue
+		}
+		if i%4096 == 64%4096 || page == nil {
+			page = e.freshInternal("inflatepg", BV(8))
+		}
+		p.B.E[p.Off+i] = page
 	}
 }
